@@ -21,7 +21,8 @@ CFG = dict(
     rigs=[dict(test="TestC20Chain", timeout_quick=300, timeout_thorough=1200),
           dict(test="TestC20Stats", timeout_quick=300, timeout_thorough=1200),
           dict(test="TestC20E2E", timeout_quick=300, timeout_thorough=1200),
-          dict(test="TestC20ServerDone", timeout_quick=300, timeout_thorough=1200)],
+          dict(test="TestC20ServerDone", timeout_quick=300, timeout_thorough=1200),
+          dict(test="TestC20WorkersBusy", timeout_quick=300, timeout_thorough=1200)],
     reason_text={"1": "implementation output differs from the Gallina model of the code (Model/Chain.v get_chain / chain; Model/Stats.v)",
                  "2": "implementation violates the specification: the observed calls are not the nesting in registration order (Check/C20c.v run_nest)",
                  "3": "a stage or the handler did not run exactly once, in order (Check/C20c.v spec_once)",
@@ -38,7 +39,8 @@ CFG = dict(
          "length<=3 x {nil, error, io.EOF}; connections; end to end {unary, client-, server-, bidi stream} x {ok, handler error, handler "
          "EOF, cancel, deadline, read failure, failed open, undecodable metadata, server reset} x 1..3 handlers, both sides; requests "
          "whose context is already done at pick-up (scripted peer with a zero grpc-timeout 0n/0m/0S/00000000H; request delivered after "
-         "the context given to Serve was cancelled) x {unary, stream} x 1..3 stats handlers x chains of length 0..3",
+         "the context given to Serve was cancelled) x {unary, stream} x 1..3 stats handlers x chains of length 0..3; all 8 unary workers "
+         "busy + 1..2 further requests, then Stop / failing reply write / read failure, then the handlers return: every RPC's event list",
     assumptions=["interceptors are modelled as functions of (next, argument) into a result that carries their effects (event log); "
                  "the Go interceptors of the rig are the hand-written twins of Check/C20c.v interp",
                  "stats: the model lists are those of lock-step executions (one caller/peer step, quiescence, next step); InPayload of a "
